@@ -100,6 +100,11 @@ CHECKS = {
    text="For every path of commitChange, applyChange, commitRollback, applyRollback and applyValues it is shown that each phase-state write and each cursor write sits under the enabling condition of the corresponding spec action (commit before apply, log order of commits, ordinal order of applies with the predecessor finished, abort when behind the rollback index), that the committed cursor passes a transaction only after validation or after its FAILED state was persisted, that COMPLETE follows the configuration write, that completion re-queues index+1, that the southbound Set is guarded and carries the term, and that no store error is dropped or classified in the wrong domain. The invariants Order and Consistency over histories are not decided.",
    note="Trusted: go/types, occheck path enumeration and solver, the transcription of the spec's guards. Known finding F18d (15 sites): the status wrappers swallow Conflict/NotFound and the caller goes on to the dependent write. Four v3 defects were repaired (039eee4, f9f5608, 18c731f, e6209cd). v3 is not wired into the manager.",
    ref="DESIGN.md §3 C20"),
+ "C12": dict(
+   technique="panic-site analysis over every module function statically reachable from the RPC handlers (and the v2 controllers): path enumeration with site events (pointer dereference, map write, index, slice, type assertion), nullability sources (optional message fields, getters, message-map elements, nil-assigned module fields, parameters through call sites) and dominating-condition entailment with caller-side guard substitution; frozen reviewed tables for assertions and panics; dataflow rule for regexp.MustCompile; NaN guard",
+   text="For each reachable function and each enumerated path it is shown that a pointer that can be nil for a decodable request is tested before a field is read through it, that maps which decode or load as nil are tested or allocated before an indexed write, that slice bounds and indexes computed from strings.Index/LastIndex (or len-1) are tested first (the one untested use is discharged by the checked shape of utils.StrPath: every path string begins with '/'), that MustCompile sees request text only through QuoteMeta, that no panic() and no single-value type assertion is reachable outside five reviewed sites, and that request floats reach big.NewFloat only after a NaN test. Absence of every run-time panic is not decided.",
+   note="Trusted: go/types, occheck walker and solver, the nullability source table, protobuf decoding facts (repeated message elements and selected oneof members are non-nil; optional message fields, empty maps and key-only map entries are nil). Not covered: function literals run as goroutines use free variables (not parameter-rooted), integer conversions, allocation sizes, third-party code, calls through interfaces. Five defects were repaired (4971eb3, 79df5d9, 9392364, 49a676b, e059f0a) in addition to 87a8378.",
+   ref="DESIGN.md §3 C12"),
 }
 
 def main():
